@@ -148,110 +148,264 @@ def grammar(repo: Repo, chk: Check, f: Func) -> t.List[Run]:
     chk.ob("O1", site, ok, f"grammar shape {got}: S-<digit>-<digits>(-<digits>){{a,b}} (the count bound is checked as a value range)" if ok else f"grammar shape is '{got}', MS-DTYP 2.4.2.1 says '{want}' (one digit revision, authority, repeated sub authorities; no signs, blanks or empty parts)")
     asc = all(r.ascii_only for r in runs) and bool(runs)
     chk.ob("O1", site, asc, "digit classes are ASCII only" if asc else "a digit class is '\\d' without re.ASCII: it matches every Unicode decimal digit, which int() silently converts (the SID string is altered instead of rejected)")
-    # the match result guards the conversion
-    g = build(f.node)
+    # the match result guards the conversion: a dominating condition is the truth of <pattern>.match/fullmatch(<sid>)
+    from .util import atoms_at
+
     ints = [n for n in body_nodes(f.node) if isinstance(n, ast.Call) and unparse(n.func) == "int"]
     for n in ints:
-        nid = None
-        for cn in g.nodes:
-            if cn.ast is not None and cn.kind in ("stmt", "cond") and not isinstance(cn.ast, (ast.FunctionDef,)) and any(x is n for x in ast.walk(cn.ast)):
-                nid = cn.id
-        gs = g.guards_of(nid) if nid is not None else []
-        okg = any(pol for e, pol in gs if isinstance(e, ast.Name) and "match" in e.id)
+        okg = any(pol and _is_match_of(repo, f, e) for e, pol in atoms_at(f, n))
         chk.ob("O1", Site.of(f, n), okg, "conversion only after the grammar matched" if okg else "int() is applied to a component without the grammar having matched on this path")
     return runs
 
 
+# ------------------------------------------------------------------------- SID component model
+def _is_match_of(repo: Repo, f: Func, e: ast.expr) -> bool:
+    """e (provenance form) is `<compiled pattern>.match(sid)` / `.fullmatch(sid)` / `re.match(P, sid)` on the SID parameter."""
+    if isinstance(e, ast.Call) and isinstance(e.func, ast.Attribute) and e.func.attr in ("match", "fullmatch") and e.args:
+        return unparse(e.args[-1]) == f.params[0]
+    return False
+
+
+class SidModel:
+    """Which component of the matched SID string an expression denotes: `sid.split('-')[k]`, an element of a slice of
+    that list, a loop variable over it, `match.group(g)`.  Components: 1 = revision, 2 = authority, >= 3 = sub authorities."""
+
+    def __init__(self, repo: Repo, f: Func, runs: t.List[Run], world: World) -> None:
+        from sa.flow import ReachingDefs
+
+        self.repo, self.f, self.runs, self.world = repo, f, runs, world
+        self.rd = ReachingDefs(f)
+        self.sid = f.params[0]
+
+    def seq_offset(self, e: t.Optional[ast.expr], at: t.Any, depth: int = 0) -> t.Optional[int]:
+        """e is the list of '-' separated parts from index `offset` on."""
+        if e is None or depth > 6:
+            return None
+        if isinstance(e, ast.Call) and isinstance(e.func, ast.Attribute) and e.func.attr == "split" and unparse(e.func.value) == self.sid and len(e.args) == 1 and self.repo.try_fold(e.args[0], self.f.mod) == (True, "-"):
+            return 0
+        if isinstance(e, ast.Subscript) and isinstance(e.slice, ast.Slice) and e.slice.upper is None and e.slice.step is None:
+            okf, a = self.repo.try_fold(e.slice.lower, self.f.mod) if e.slice.lower is not None else (True, 0)
+            o = self.seq_offset(e.value, at, depth + 1)
+            if okf and isinstance(a, int) and a >= 0 and o is not None:
+                return o + a
+            return None
+        if isinstance(e, ast.Name):
+            d = self.rd.single_def(e.id, at)
+            if d is not None and d.kind == "assign" and d.index is None and d.value is not None:
+                return self.seq_offset(d.value, d.nid, depth + 1)
+        return None
+
+    def component(self, e: t.Optional[ast.expr], at: t.Any, depth: int = 0) -> t.Optional[t.Tuple[int, t.Optional[int]]]:
+        """(lowest, highest or None) index of the component(s) e can denote."""
+        if e is None or depth > 6:
+            return None
+        if isinstance(e, ast.Subscript) and not isinstance(e.slice, ast.Slice):
+            o = self.seq_offset(e.value, at, depth + 1)
+            if o is None:
+                return None
+            okf, k = self.repo.try_fold(e.slice, self.f.mod)
+            if okf and isinstance(k, int) and k >= 0:
+                return o + k, o + k
+            iv = self.world.analyse(self.f).iv_of(e.slice)
+            if iv.lo is not None and iv.lo >= 0:
+                return o + iv.lo, None if iv.hi is None else o + iv.hi
+            return None
+        if isinstance(e, ast.Call) and isinstance(e.func, ast.Attribute) and e.func.attr == "group" and len(e.args) == 1:
+            okf, g = self.repo.try_fold(e.args[0], self.f.mod)
+            m = e.func.value
+            md = self.rd.single_def(m.id, at) if isinstance(m, ast.Name) else None
+            mv = md.value if md is not None else m
+            if okf and isinstance(g, int) and g in (1, 2) and isinstance(mv, ast.expr) and _is_match_of(self.repo, self.f, mv) and self.groups_are_runs:
+                return g, g
+            return None
+        if isinstance(e, ast.Name):
+            ds = self.rd.reaching(e.id, at)
+            if len(ds) == 1 and ds[0].kind == "for" and ds[0].index is None and ds[0].value is not None:
+                o = self.seq_offset(ds[0].value, ds[0].value, depth + 1)
+                return (o, None) if o is not None else None
+            if len(ds) == 1 and ds[0].kind == "assign" and ds[0].index is None and ds[0].value is not None:
+                return self.component(ds[0].value, ds[0].nid, depth + 1)
+        return None
+
+    groups_are_runs = False
+
+    def int_iv(self, inner: ast.expr) -> t.Optional[IV]:
+        """Value range of int(<component>) implied by the grammar (digits only, at most `hi` of them)."""
+        if not self.runs:
+            return None
+        c = self.component(inner, inner)
+        if c is None:
+            return IV(0, None) if all(r.ascii_only for r in self.runs) else None
+        lo, hi = c
+        picked = []
+        for idx, r in ((1, self.runs[0] if len(self.runs) > 0 else None), (2, self.runs[1] if len(self.runs) > 1 else None), (3, self.runs[2] if len(self.runs) > 2 else None)):
+            if r is None:
+                continue
+            if idx < 3 and lo <= idx and (hi is None or hi >= idx):
+                picked.append(r)
+            if idx == 3 and (hi is None or hi >= 3):
+                picked.append(r)
+        if not picked:
+            return IV(0, None)
+        his = [None if r.hi is None else 10**r.hi - 1 for r in picked]
+        return IV(0, None if any(h is None for h in his) else max(h for h in his if h is not None))
+
+
 # ------------------------------------------------------------------------- O2
+def _pack_sink(repo: Repo, f: Func, node: ast.AST) -> t.Optional[t.Tuple[ast.expr, int, bool, str]]:
+    """(value, width, signed, byte order) of `v.to_bytes(w, byteorder=..)` or a one-field `struct.pack(fmt, v)`."""
+    if isinstance(node, ast.Call) and isinstance(node.func, ast.Attribute) and node.func.attr == "to_bytes":
+        okw, width = repo.try_fold(node.args[0], f.mod) if node.args else (False, None)
+        signed = any(k.arg == "signed" and isinstance(k.value, ast.Constant) and k.value.value for k in node.keywords)
+        order = next((repo.try_fold(k.value, f.mod)[1] for k in node.keywords if k.arg == "byteorder"), None)
+        if okw and isinstance(width, int):
+            return node.func.value, width, bool(signed), str(order)
+        return node.func.value, -1, bool(signed), str(order)
+    if isinstance(node, ast.Call) and repo.dotted(node.func, f.mod) == "struct.pack" and len(node.args) == 2:
+        okf, fmt = repo.try_fold(node.args[0], f.mod)
+        table = {"B": (1, False), "H": (2, False), "I": (4, False), "L": (4, False), "Q": (8, False), "b": (1, True), "h": (2, True), "i": (4, True), "l": (4, True), "q": (8, True)}
+        if okf and isinstance(fmt, str) and len(fmt) == 2 and fmt[0] in "<>!" and fmt[1] in table:
+            w, sg = table[fmt[1]]
+            return node.args[1], w, sg, "little" if fmt[0] == "<" else "big"
+    return None
+
+
 def ranges(repo: Repo, chk: Check, f: Func, world: World, runs: t.List[Run]) -> None:
-    # split components: index 1 -> first run, 2 -> second, >= 3 -> the repeated run (when the shape is as expected)
-    split = [n for n in body_nodes(f.node) if isinstance(n, ast.Assign) and isinstance(n.value, ast.Call) and unparse(n.value.func).endswith(".split") and unparse(n.value.args[0]) == "'-'"]
-    splitname = unparse(split[0].targets[0]) if split else None
-
-    def hook(inner: ast.expr) -> t.Optional[IV]:
-        if splitname is None or not runs:
-            return IV(0, None) if runs and all(r.ascii_only for r in runs) else None
-        if isinstance(inner, ast.Subscript) and unparse(inner.value) == splitname:
-            okf, idx = repo.try_fold(inner.slice, f.mod)
-            r = None
-            if okf and isinstance(idx, int) and 1 <= idx <= 2 and len(runs) >= idx:
-                r = runs[idx - 1]
-            elif len(runs) >= 3:
-                r = runs[2]
-            if r is not None:
-                return IV(0, None if r.hi is None else 10**r.hi - 1)
-        return IV(0, None)
-
-    world.int_of_str[f.qual] = hook
-    if splitname and len(runs) >= 3:
+    model = SidModel(repo, f, runs, world)
+    # capture groups 1 and 2 are the revision and authority runs when the pattern captures exactly those
+    model.groups_are_runs = _groups_are_first_runs(repo, f)
+    world.int_of_str[f.qual] = model.int_iv
+    # the split list (and every local that is a tail of it) has 3 + (number of sub authorities) parts
+    if len(runs) >= 3:
         lo, hi = runs[2].rep
-        world.len_of[(f.qual, splitname)] = IV(3 + lo, None if hi is None else 3 + hi)
+        texts: t.Dict[str, int] = {}
+        for n in body_nodes(f.node):
+            if isinstance(n, (ast.Name, ast.Call, ast.Subscript)) and isinstance(getattr(n, "ctx", ast.Load()), ast.Load):
+                o = model.seq_offset(t.cast(ast.expr, n), n)
+                if o is not None:
+                    texts[unparse(n)] = o
+        for txt, o in texts.items():
+            world.len_of[(f.qual, txt)] = IV(max(3 + lo - o, 0), None if hi is None else max(3 + hi - o, 0))
     world.results.pop(f.qual, None)
     res = world.analyse(f)
     n = 0
+    stores = [node for node in body_nodes(f.node) if isinstance(node, ast.Assign) and isinstance(node.targets[0], ast.Subscript) and not isinstance(node.targets[0].slice, ast.Slice)]
     for node in body_nodes(f.node):
-        if isinstance(node, ast.Call) and isinstance(node.func, ast.Attribute) and node.func.attr == "to_bytes":
+        sink = _pack_sink(repo, f, node)
+        if sink is not None:
             n += 1
-            iv = res.iv_of(node.func.value)
-            okw, width = repo.try_fold(node.args[0], f.mod) if node.args else (False, None)
-            signed = any(k.arg == "signed" and isinstance(k.value, ast.Constant) and k.value.value for k in node.keywords)
-            if not okw:
+            val, width, signed, _order = sink
+            iv = res.iv_of(val)
+            if width < 0:
                 chk.ob("O2", Site.of(f, node), False, "to_bytes width is not constant")
                 continue
-            lo, hi = (-(1 << (8 * width - 1)), (1 << (8 * width - 1)) - 1) if signed else (0, (1 << (8 * width)) - 1)
-            ok = iv.within(lo, hi)
-            chk.ob("O2", Site.of(f, node), ok, f"{unparse(node.func.value)} in {iv} fits {width} bytes" if ok else f"{unparse(node.func.value)} can be {iv} at to_bytes({width}): a well-formed or near-miss SID raises OverflowError instead of being encoded / rejected with ValueError")
-        if isinstance(node, ast.Assign) and isinstance(node.targets[0], ast.Subscript) and not isinstance(node.targets[0].slice, ast.Slice):
-            n += 1
-            iv = res.iv_of(node.value)
-            ok = iv.within(0, 255)
-            chk.ob("O2", Site.of(f, node), ok, f"byte store {unparse(node.value)} in {iv}" if ok else f"byte store {unparse(node.value)} can be {iv}")
+            lo_, hi_ = (-(1 << (8 * width - 1)), (1 << (8 * width - 1)) - 1) if signed else (0, (1 << (8 * width)) - 1)
+            ok = iv.within(lo_, hi_)
+            chk.ob("O2", Site.of(f, node), ok, f"{unparse(val)} in {iv} fits {width} bytes" if ok else f"{unparse(val)} can be {iv} at a {width} byte field: a well-formed or near-miss SID raises OverflowError / struct.error instead of being encoded / rejected with ValueError")
+    for node in stores:
+        n += 1
+        iv = res.iv_of(node.value)
+        ok = iv.within(0, 255)
+        chk.ob("O2", Site.of(f, node), ok, f"byte store {unparse(node.value)} in {iv}" if ok else f"byte store {unparse(node.value)} can be {iv}")
     chk.count("range sinks", n)
     chk.require_min("range sinks", 2)
-    # SubAuthorityCount: exactly 1..15 (not more: malformed SIDs accepted; not fewer: well-formed SIDs rejected)
-    cnt = [node for node in body_nodes(f.node) if isinstance(node, ast.BinOp) and isinstance(node.op, ast.Sub) and splitname is not None and unparse(node.left) == f"len({splitname})" and unparse(node.right) == "3"]
+    # SubAuthorityCount (the value stored in byte 1): exactly 1..15 (not more: malformed SIDs accepted; not fewer: well-formed SIDs rejected)
+    cnt = [s_ for s_ in stores if repo.try_fold(s_.targets[0].slice, f.mod) == (True, 1)]  # type: ignore[attr-defined]
     for node in cnt[:1]:
-        iv = res.iv_of(node)
+        iv = res.iv_of(node.value)
         ok = iv.within(1, 15)
         chk.ob("O2", Site.of(f, node, "sub authority count"), ok, f"count in {iv} is within 1..15" if ok else f"the number of sub authorities can be {iv}: MS-DTYP allows 1..15")
         okc = iv.lo is not None and iv.hi is not None and iv.lo <= 1 and iv.hi >= 15
         chk.ob("O2", Site.of(f, node, "sub authority count completeness"), okc, "every count from 1 to 15 is accepted" if okc else f"only counts in {iv} get through the grammar and guards: well-formed SIDs with up to 15 sub authorities are rejected")
     # the bytes overwritten by revision / count must be zero: authority < 2^48 when it is packed into 8 bytes
-    stores = [node for node in body_nodes(f.node) if isinstance(node, ast.Assign) and isinstance(node.targets[0], ast.Subscript) and not isinstance(node.targets[0].slice, ast.Slice)]
-    base = [node for node in body_nodes(f.node) if isinstance(node, ast.Call) and isinstance(node.func, ast.Attribute) and node.func.attr == "to_bytes" and unparse(node.func.value) == "authority"]
+    base = [node for node in body_nodes(f.node) if (_pack_sink(repo, f, node) or (None, 0, False, ""))[1] == 8]
     if base and stores:
-        okw, width = repo.try_fold(base[0].args[0], f.mod)
-        over = sorted(repo.try_fold(s.targets[0].slice, f.mod)[1] for s in stores if repo.try_fold(s.targets[0].slice, f.mod)[0])  # type: ignore[union-attr]
-        iv = res.iv_of(base[0].func.value)
-        if okw and over:
+        val, width, _sg, _o = t.cast(t.Tuple[ast.expr, int, bool, str], _pack_sink(repo, f, base[0]))
+        over = sorted(repo.try_fold(s_.targets[0].slice, f.mod)[1] for s_ in stores if repo.try_fold(s_.targets[0].slice, f.mod)[0])  # type: ignore[attr-defined]
+        iv = res.iv_of(val)
+        if over:
             free = width - (max(over) + 1)
             ok = iv.within(0, (1 << (8 * free)) - 1) and over == list(range(len(over)))
             chk.ob("O2", Site.of(f, base[0], "authority bytes overwritten by revision/count"), ok, f"authority in {iv} leaves bytes {over} zero before they are overwritten" if ok else f"authority can be {iv}: its top bytes {over} are overwritten by revision and count, so a SID with a larger authority is silently altered")
-    # count byte within 1..15 and errors are ValueError
     for r in [x for x in body_nodes(f.node) if isinstance(x, ast.Raise)]:
         ok = r.exc is not None and unparse(r.exc).startswith("ValueError(")
         chk.ob("O2", Site.of(f, r), ok, "rejects with ValueError" if ok else f"rejects with {unparse(r.exc)[:40]}")
 
 
+def _groups_are_first_runs(repo: Repo, f: Func) -> bool:
+    """Capture group 1 wraps exactly the revision digit and group 2 exactly the authority digits."""
+    for n in ast.walk(f.mod.tree):
+        if isinstance(n, ast.Call) and repo.dotted(n.func, f.mod) in ("re.compile", "re.match", "re.fullmatch") and n.args:
+            okp, pattern = repo.try_fold(n.args[0], f.mod)
+            if okp and isinstance(pattern, str):
+                try:
+                    tree = list(sre_parse.parse(pattern))
+                except Exception:
+                    return False
+                body = [it for it in tree if it[0] != sre_c.AT]
+                groups = [(i, it) for i, it in enumerate(body) if it[0] == sre_c.SUBPATTERN and it[1][0] is not None]
+                # S - (D) - (D+) ...: literals at 0,1, group 1 at 2, literal at 3, group 2 at 4
+                return [g[1][1][0] for g in groups[:2]] == [1, 2] and [g[0] for g in groups[:2]] == [2, 4]
+    return False
+
+
 # ------------------------------------------------------------------------- O3
 def sid_layout(repo: Repo, chk: Check, f: Func) -> None:
     """Revision(1) SubAuthorityCount(1) IdentifierAuthority(6, big-endian) SubAuthority[](4, little-endian each)."""
-    src = {unparse(n): n for n in body_nodes(f.node) if isinstance(n, (ast.Assign, ast.AugAssign))}
-    base = [n for n in body_nodes(f.node) if isinstance(n, ast.Assign) and unparse(n.value).startswith("bytearray(authority.to_bytes(8")]
-    ok = bool(base) and "byteorder='big'" in unparse(base[0].value)
-    chk.ob("O3", Site.of(f, base[0] if base else None, None if base else "authority bytes"), ok, "identifier authority big-endian in bytes 2..7" if ok else "the identifier authority is not laid out as the low 6 bytes of an 8 byte big-endian value")
-    if base:
-        name = unparse(base[0].targets[0])
-        s0 = f"{name}[0] = revision" in src
-        s1 = any(k.startswith(f"{name}[1] = len(") and k.endswith("- 3") for k in src)
-        chk.ob("O3", Site.of(f, construct="revision and count bytes"), s0 and s1, "byte 0 = revision, byte 1 = number of sub authorities" if s0 and s1 else "revision / sub authority count are not stored in bytes 0 and 1")
-        loops = [n for n in body_nodes(f.node) if isinstance(n, ast.For)]
-        okl = len(loops) == 1 and unparse(loops[0].iter).startswith("range(3, len(")
-        app = [n for n in body_nodes(f.node) if isinstance(n, ast.AugAssign) and unparse(n.target) == name]
-        oka = len(app) == 1 and "to_bytes(4, byteorder='little')" in unparse(app[0].value) and okl and any(x is app[0] for x in ast.walk(loops[0]))
-        chk.ob("O3", Site.of(f, app[0] if app else None, None if app else "sub authorities"), oka, "sub authorities appended in order, 4 bytes little-endian each" if oka else "sub authorities are not appended in order as 4 byte little-endian values")
-        rets = [n for n in body_nodes(f.node) if isinstance(n, ast.Return)]
-        chk.ob("O3", Site.of(f, rets[0] if rets else None, None if rets else "return"), len(rets) == 1 and unparse(rets[0].value) == f"bytes({name})", "returns the assembled bytes")
+    world = World(repo)
+    runs = [Run(1, 1, True, (1, 1)), Run(1, None, True, (1, 1)), Run(1, None, True, (1, 15))]
+    model = SidModel(repo, f, runs, world)
+    model.groups_are_runs = _groups_are_first_runs(repo, f)
+    base = [n for n in body_nodes(f.node) if isinstance(n, ast.Assign) and isinstance(n.value, ast.Call) and unparse(n.value.func) == "bytearray" and n.value.args and (_pack_sink(repo, f, n.value.args[0]) or (None, 0, False, ""))[1] == 8]
+    sink = _pack_sink(repo, f, base[0].value.args[0]) if base else None  # type: ignore[attr-defined]
+    okb = sink is not None and sink[3] == "big" and _int_of_component(model, sink[0], base[0]) == (2, 2)
+    chk.ob("O3", Site.of(f, base[0] if base else None, None if base else "authority bytes"), bool(okb), "identifier authority (component 2) big-endian in bytes 2..7" if okb else "the identifier authority is not laid out as the low 6 bytes of an 8 byte big-endian value")
+    if not base:
+        return
+    name = unparse(base[0].targets[0])
+    stores = {repo.try_fold(n.targets[0].slice, f.mod)[1]: n for n in body_nodes(f.node) if isinstance(n, ast.Assign) and isinstance(n.targets[0], ast.Subscript) and unparse(n.targets[0].value) == name and repo.try_fold(n.targets[0].slice, f.mod)[0]}
+    s0 = 0 in stores and _int_of_component(model, stores[0].value, stores[0]) == (1, 1)
+    s1 = False
+    if 1 in stores:
+        v = stores[1].value
+        if isinstance(v, ast.Call) and unparse(v.func) == "len" and len(v.args) == 1:
+            s1 = model.seq_offset(v.args[0], stores[1]) == 3
+        elif isinstance(v, ast.BinOp) and isinstance(v.op, ast.Sub) and isinstance(v.left, ast.Call) and unparse(v.left.func) == "len" and len(v.left.args) == 1:
+            o = model.seq_offset(v.left.args[0], stores[1])
+            okk, k = repo.try_fold(v.right, f.mod)
+            s1 = o is not None and okk and isinstance(k, int) and o + k == 3
+        elif isinstance(v, ast.Name):
+            d = model.rd.single_def(v.id, stores[1])
+            if d is not None and isinstance(d.value, ast.Call) and unparse(d.value.func) == "len" and d.value.args:
+                s1 = model.seq_offset(d.value.args[0], d.nid) == 3
+    chk.ob("O3", Site.of(f, construct="revision and count bytes"), bool(s0 and s1), "byte 0 = revision, byte 1 = number of sub authorities" if s0 and s1 else "revision / sub authority count are not stored in bytes 0 and 1")
+    loops = [n for n in body_nodes(f.node) if isinstance(n, ast.For)]
+    app = [n for n in body_nodes(f.node) if isinstance(n, ast.AugAssign) and unparse(n.target) == name and isinstance(n.op, ast.Add)]
+    oka = False
+    if len(loops) == 1 and len(app) == 1 and any(x is app[0] for x in ast.walk(loops[0])):
+        sk = _pack_sink(repo, f, app[0].value)
+        comp = _int_of_component(model, sk[0], app[0]) if sk is not None else None
+        # every sub authority, in order: the loop runs over the parts from index 3 on (elements or ascending indices)
+        it = loops[0].iter
+        in_order = model.seq_offset(it, it) == 3 or (isinstance(it, ast.Call) and unparse(it.func) == "range" and len(it.args) == 2 and repo.try_fold(it.args[0], f.mod) == (True, 3) and isinstance(it.args[1], ast.Call) and unparse(it.args[1].func) == "len" and model.seq_offset(it.args[1].args[0], it) == 0)
+        oka = sk is not None and sk[1] == 4 and sk[3] == "little" and not sk[2] and comp is not None and comp[0] == 3 and bool(in_order)
+    chk.ob("O3", Site.of(f, app[0] if app else None, None if app else "sub authorities"), oka, "sub authorities appended in order, 4 bytes little-endian each" if oka else "sub authorities are not appended in order as 4 byte little-endian values")
+    rets = [n for n in body_nodes(f.node) if isinstance(n, ast.Return)]
+    chk.ob("O3", Site.of(f, rets[0] if rets else None, None if rets else "return"), len(rets) == 1 and unparse(rets[0].value) == f"bytes({name})", "returns the assembled bytes")
+
+
+def _int_of_component(model: SidModel, e: t.Optional[ast.expr], at: t.Any) -> t.Optional[t.Tuple[int, t.Optional[int]]]:
+    """e is int(<component>) (possibly through single-definition locals): which component."""
+    if e is None:
+        return None
+    if isinstance(e, ast.Name):
+        ds = model.rd.reaching(e.id, at)
+        if len(ds) == 1 and ds[0].kind == "assign" and ds[0].index is None and ds[0].value is not None:
+            return _int_of_component(model, ds[0].value, ds[0].nid)
+        return None
+    if isinstance(e, ast.Call) and unparse(e.func) == "int" and len(e.args) == 1:
+        return model.component(e.args[0], at)
+    return None
 
 
 def ace_acl(repo: Repo, chk: Check) -> None:
@@ -335,26 +489,37 @@ def _rank(off: Lin, tb: Table) -> int:
 
 # ------------------------------------------------------------------------- O4
 def target_sd(repo: Repo, chk: Check) -> None:
+    from sa.pathsum import Summary
+
+    from .util import args_of
+
     f = repo.method("_blob.SIDDescriptor", "get_target_sd")
     chk.analysed(f)
-    rets = [n for n in body_nodes(f.node) if isinstance(n, ast.Return)]
-    if len(rets) != 1 or not isinstance(rets[0].value, ast.Call) or unparse(rets[0].value.func) != "sd_to_bytes":
-        chk.ob("O4", Site.of(f, rets[0] if rets else None, None if rets else "return"), False, "get_target_sd does not return sd_to_bytes(...)")
-        return
-    c = rets[0].value
-    site = Site.of(f, c)
-    kws = {k.arg: k.value for k in c.keywords if k.arg}
-    for i, a in enumerate(c.args):
-        kws.setdefault(["owner", "group", "sacl", "dacl"][i], a)
-    for who in ("owner", "group"):
-        okf, v = repo.try_fold(kws.get(who), f.mod) if who in kws else (False, None)
-        chk.ob("O4", site, okf and v == "S-1-5-18", f"{who} = SYSTEM (S-1-5-18)" if okf and v == "S-1-5-18" else f"{who} is {v!r}")
-    oks = "sacl" not in kws or (isinstance(kws["sacl"], ast.Constant) and kws["sacl"].value is None)
-    chk.ob("O4", site, oks, "no SACL")
-    d = kws.get("dacl")
-    want = ["ace_to_bytes(self.value, 3)", "ace_to_bytes('S-1-1-0', 2)"]
-    got = [unparse(e) for e in d.elts] if isinstance(d, ast.List) else [unparse(d) if d is not None else "missing"]
-    chk.ob("O4", site, got == want, "DACL = [allow <sid> mask 3, allow Everyone mask 2] in that order" if got == want else f"DACL is {got}, expected the list {want} (two ACEs even when the SID is S-1-1-0)")
+    summ = Summary(f, ["self"])
+    for ps in summ.returning():
+        c = ps.value
+        site = Site.of(f, ps.exit_node)
+        if not (isinstance(c, ast.Call) and ps.text(c.func) == "sd_to_bytes"):
+            chk.ob("O4", site, False, "get_target_sd does not return sd_to_bytes(...)")
+            continue
+        kws = args_of(repo, f, c)
+        for who in ("owner", "group"):
+            okf, v = repo.try_fold(kws.get(who), f.mod) if who in kws else (False, None)
+            chk.ob("O4", site, okf and v == "S-1-5-18", f"{who} = SYSTEM (S-1-5-18)" if okf and v == "S-1-5-18" else f"{who} is {v!r}")
+        oks = "sacl" not in kws or (isinstance(kws["sacl"], ast.Constant) and kws["sacl"].value is None)
+        chk.ob("O4", site, oks, "no SACL")
+        d = kws.get("dacl")
+        got = []
+        for e in (d.elts if isinstance(d, (ast.List, ast.Tuple)) else []):
+            if isinstance(e, ast.Call) and ps.text(e.func) == "ace_to_bytes":
+                a = args_of(repo, f, e)
+                oks_, sv = repo.try_fold(a.get("sid"), f.mod) if "sid" in a else (False, None)
+                okm, mv = repo.try_fold(a.get("access_mask"), f.mod) if "access_mask" in a else (False, None)
+                got.append((repr(sv) if oks_ else ps.text(a.get("sid")), mv if okm else ps.text(a.get("access_mask"))))
+            else:
+                got.append((ps.text(e), None))
+        want = [("self.value", 3), ("'S-1-1-0'", 2)]
+        chk.ob("O4", site, got == want, "DACL = [allow <sid> mask 3, allow Everyone mask 2] in that order" if got == want else f"DACL is {got}, expected {want} (two ACEs even when the SID is S-1-1-0)")
 
 
 def _implied(conds: t.Any) -> t.Any:
